@@ -89,7 +89,16 @@ func recoversIntoError(p *an.Prog, fn *ssa.Function, call ssa.CallInstruction) (
 					continue
 				}
 				found = "the deferred recover does not set the error result"
-				// the closure stores into the cell of fn's error result
+				// the deferred function stores a non-nil error into fn's error result: through a captured
+				// variable (closure) or through a pointer parameter bound to the result's address at the defer
+				isResultCell := func(a *ssa.Alloc) bool {
+					for _, ret := range an.Returns(fn) {
+						if u, ok := ret.Results[idx].(*ssa.UnOp); ok && u.X == ssa.Value(a) {
+							return true
+						}
+					}
+					return false
+				}
 				setsErr := false
 				an.EachInstr(callee, func(in2 ssa.Instruction) {
 					st, ok := in2.(*ssa.Store)
@@ -97,11 +106,20 @@ func recoversIntoError(p *an.Prog, fn *ssa.Function, call ssa.CallInstruction) (
 						return
 					}
 					for _, r := range an.ResolveAll(st.Addr) {
-						if al, ok := r.(*ssa.Alloc); ok && al.Parent() == fn {
-							// is this alloc what fn returns as its error?
-							for _, ret := range an.Returns(fn) {
-								if u, ok := ret.Results[idx].(*ssa.UnOp); ok && u.X == ssa.Value(al) {
-									setsErr = true
+						switch x := r.(type) {
+						case *ssa.Alloc:
+							if x.Parent() == fn && isResultCell(x) {
+								setsErr = true
+							}
+						case *ssa.Parameter:
+							for i, prm := range callee.Params {
+								if prm != x || i >= len(d.Call.Args) {
+									continue
+								}
+								for _, a := range an.ResolveAll(d.Call.Args[i]) {
+									if al, ok := a.(*ssa.Alloc); ok && al.Parent() == fn && isResultCell(al) {
+										setsErr = true
+									}
 								}
 							}
 						}
